@@ -208,6 +208,7 @@ def loop_form(F, b):
     inner = []
     outer = []
     conds = ["if " + px(x["c"], defs) for x in walk(l.get("b") or {}) if x.get("k") == "if"]
+    outer_conds = ["if " + px(x["c"], defs) for x in walk(body) if x.get("k") == "if" and id(x) not in inner_nodes]
     for x in walk(body):
         k = x.get("k")
         t = None
@@ -220,7 +221,7 @@ def loop_form(F, b):
         if t is None:
             continue
         (inner if id(x) in inner_nodes else outer).append(t)
-    return kind, bound, conds + inner, outer
+    return kind, bound, conds + inner, outer_conds + outer
 
 
 WHOLE_WANT = {
@@ -261,10 +262,12 @@ def check_views(ctx, F):
         for fid, b in pick(F, cls, "operator bool", "BitArrayT"):
             site = "%s::operator bool" % cls
             lf = loop_form(F, b)
-            want = ("for", "(i<(_width/8))", sorted(["if _storage[i]", "++i", "return True"]),
-                    ["return ((_storage[(_width/8)]&((1<<(_width%8))-1))!=0)"])
+            tail = "return ((_storage[(_width/8)]&((1<<(_width%8))-1))!=0)"
+            # the tail may be skipped when there is none (_width % 8 == 0: the mask would be 0 and the answer false anyway)
+            tails = ([tail], ["if ((_width%8)==0)", "return False", tail])
+            head = ("for", "(i<(_width/8))", sorted(["if _storage[i]", "++i", "return True"]))
             ctx.instance("C18.views", site, {"function": site, "loc": F.floc(fid), "form": lf})
-            if lf is None or (lf[0], lf[1], sorted(lf[2]), lf[3]) != want:
+            if lf is None or (lf[0], lf[1], sorted(lf[2])) != head or lf[3] not in tails:
                 ctx.violation("C18.views", site, "%s (%s)" % (site, F.floc(fid)),
                               "%s is %s, expected full units i < _width/8 and the tail _storage[_width/8] & ((1 << _width%%8) - 1)" % (site, lf), {})
 
